@@ -108,18 +108,47 @@ Print Assumptions C20_second_run_refused.
 
 (* --- 7. the loop of the in-place route: moving the files one after the other, longest path first (the repaired order),
         gives the parallel rename used by the model, for every folder content — also when an image folder is named like
-        the feature type *)
-Theorem C20_longest_first_is_rename : forall ty e F L,
-  NoDup L -> (forall q, In q L <-> In q (keys F) /\ has_ext e q = true) -> longest_first L ->
+        the feature type.  "Longest" by any measure that grows when a path is put under the type folder; the number of
+        bytes and the number of characters (Python's len) both do. *)
+Theorem C20_longest_first_is_rename : forall ty e F (len : string -> nat),
+  (forall q, (len q < len (under ty q))%nat) ->
+  forall L, NoDup L -> (forall q, In q L <-> In q (keys F) /\ has_ext e q = true) -> longest_first len L ->
   forall k, lookup k (move_in_order ty L F) = lookup k (rename_feat ty e F).
 Proof. exact longest_first_is_rename. Qed.
 Print Assumptions C20_longest_first_is_rename.
+
+Theorem C20_length_measures : forall ty q,
+  (String.length q < String.length (under ty q))%nat /\ (nchars q < nchars (under ty q))%nat.
+Proof. intros. split; [apply bytes_grow | apply chars_grow]. Qed.
+Print Assumptions C20_length_measures.
 
 (* the parallel rename loses nothing and overwrites nothing *)
 Theorem C20_rename_lossless : forall ty e F p,
   lookup (if has_ext e p then under ty p else p) (rename_feat ty e F) = lookup p F.
 Proof. exact lookup_rename_feat. Qed.
 Print Assumptions C20_rename_lossless.
+
+(* --- 8. record files in the copy route, per image transfer strategy; the source keeps them unless asked to move them *)
+Theorem C20_record_files_per_strategy : forall a s t r,
+  upgrade_copy a s t = CDone r ->
+  match t_rd t with
+  | None => c_rd r = RNone /\ c_src_rd r = None
+  | Some R =>
+    c_src_rd r = match s with Move => Some [] | _ => Some R end /\
+    c_rd r = match s with
+             | Skip => RNone
+             | RootLink => RRootLink
+             | Copy | Move => files_or_none RFiles R
+             | LinkAbs | LinkRel => files_or_none RLinks R
+             end
+  end.
+Proof. exact record_files_per_strategy. Qed.
+Print Assumptions C20_record_files_per_strategy.
+
+(* --- the hypothesis on image names follows from: the base name has a character other than a dot *)
+Theorem C20_images_ok_good : forall k imgs, forallb good_base imgs = true -> images_ok (fext k) imgs.
+Proof. exact images_ok_good. Qed.
+Print Assumptions C20_images_ok_good.
 
 (* --- the hypotheses are decidable *)
 Theorem C20_tidy_decidable : forall a t,
